@@ -75,7 +75,13 @@ void parseAndAddRange(char* buf, CpuSet& set) {
   if (sep) {
     *sep = '\0';
     int32_t lo = parseIntClamped(buf);
-    int32_t hi = parseIntClamped(sep + 1);
+    // Clamp an over-large upper bound rather than rejecting it: "0-2147483647" still denotes every
+    // representable cpu, and dropping the item would lose the in-range part of the range.
+    char* hiEnd = nullptr;
+    long hiLong = std::strtol(sep + 1, &hiEnd, 10);
+    int32_t hi = (hiEnd == sep + 1 || hiLong < 0)
+        ? -1
+        : static_cast<int32_t>(std::min(hiLong, kMaxReasonableCpuId));
     if (lo >= 0 && hi >= 0) {
       set.addRange(lo, hi + 1);
     }
